@@ -230,7 +230,7 @@ def run(tier: str, seed: int, t0: float) -> int:
         stats.count("bundled_exprs", len(recs2))
     for key, least in (("built", 1000), ("rejected", 500), ("syntax_error", 300)):
         if stats.counts.get(key, 0) < least:
-            raise core.MachineryError(f"vacuity gate: {key}={stats.counts.get(key, 0)} < {least}")
+            core.vacuity(out, f"vacuity gate: {key}={stats.counts.get(key, 0)} < {least}")
     stats.exhaustive = True
     stats.tlc_cmds = stats.tlc_cmds[:8] + [f"... {max(0, len(stats.tlc_cmds) - 8)} more runs"]
     return core.finish("C06", tier, seed, stats, out, t0,
